@@ -227,7 +227,7 @@ def validate(ctx, recs, name="Trace_CdefOol"):
         chunk = slim[i:i + 1500]
         path = os.path.join(ctx.tmp, "trace_%d.json" % len(ctx.cov["tlc_runs"]))
         core.write_json(path, chunk)
-        r = core.tlc("Trace_CdefOol", workers=1, env={"TRACE_FILE": path}, timeout=1500)
+        r = core.tlc("Trace_CdefOol", workers=1, env={"TRACE_FILE": path, "JAVA_TOOL_OPTIONS": "-Xss256m"}, timeout=1500)
         ctx.add_tlc(name, r, count_states=False)
         got = tuples(r.out, "VERDICT")
         if len(got) != len(chunk):
@@ -565,7 +565,7 @@ def run(ctx):
         if len(cand) != dumps_n[name]:
             raise core.MachineryError("%s: %d behaviours printed, %d states" % (name, len(cand), dumps_n[name]))
         ctx.rng.shuffle(cand)
-        cand = cand[:200 if quick else 1000]
+        cand = cand[:150 if quick else 1000]
         for b in cand:
             kk = mg.beh_key(b)
             if b and kk not in keys:
@@ -591,8 +591,8 @@ def run(ctx):
                     if r["id"] in verdicts else None}, limit=3)
 
     # ---------------------------------------------------------------- code -> spec at real sizes
-    nrand = 40 if quick else 600
-    rbehs = [random_behaviour(ctx.rng, ctx.rng.randrange(3, 14 if quick else 25)) for _ in range(nrand)]
+    nrand = 24 if quick else 600
+    rbehs = [random_behaviour(ctx.rng, ctx.rng.randrange(3, 11 if quick else 25)) for _ in range(nrand)]
     rrecs = run_cases(ctx, rbehs, libpath, jobs)
     for r in rrecs:
         ctx.case(mg.beh_key(r["beh"]))
